@@ -87,7 +87,14 @@ type World struct {
 	stypes  map[string]reflect.Type
 	rnodes  map[int]*RNode
 	anodes  map[int]*ANode
+
+	// Hook, when set, may answer a resolver invocation instead of the graph (used by the
+	// subscription fixtures to return ggql.NewSubscription).
+	Hook func(node int, field *ggql.Field, args map[string]interface{}) (interface{}, error, bool)
 }
+
+// NodeValue returns the Go representation of a node (what a resolver would hand to ggql).
+func (w *World) NodeValue(id int) interface{} { return w.nodeValue(id) }
 
 // RNode serves a node through the ggql.Resolver interface.
 type RNode struct {
@@ -160,6 +167,11 @@ func (w *World) resolveNode(strategy string, id int, field *ggql.Field, args map
 	w.log(Call{Strategy: strategy, Node: id, Field: field.Name, Key: key, Args: hx.CanonArgs(args), HasArgs: args})
 	if f, bad := w.faults[fkey(id, field.Name)]; bad && f.Kind != "nth" {
 		return nil, faultErr(f)
+	}
+	if w.Hook != nil {
+		if v, err, ok := w.Hook(id, field, args); ok {
+			return v, err
+		}
 	}
 	n := w.C.Graph.Nodes[id]
 	v, ok := n.F[field.Name]
